@@ -225,6 +225,7 @@ class Crazyflie():
         if (self.link is not None):
             self.link.close()
         self.link = None
+        self._cancel_pending_answers()
         if (self.state == State.INITIALIZED):
             self.connection_failed.call(self.link_uri, errmsg)
         elif (self.state == State.CONNECTED or
@@ -294,7 +295,7 @@ class Crazyflie():
         if (self.link is not None):
             self.link.close()
             self.link = None
-        self._answer_patterns = {}
+        self._cancel_pending_answers()
         self.disconnected.call(self.link_uri)
         self.state = State.DISCONNECTED
 
@@ -318,6 +319,13 @@ class Crazyflie():
     def remove_header_callback(self, cb, port, channel, port_mask=0xFF, channel_mask=0xFF):
         """Remove the callback cb on port and channel"""
         self.incoming.remove_header_callback(cb, port, channel, port_mask, channel_mask)
+
+    def _cancel_pending_answers(self):
+        """Forget all pending retries, they belong to the link that is now closed"""
+        pending = self._answer_patterns
+        self._answer_patterns = {}
+        for timer in list(pending.values()):
+            timer.cancel()
 
     def _no_answer_do_retry(self, pk, pattern, timeout=0.2):
         """Resend packets that we have not gotten answers to"""
@@ -390,8 +398,10 @@ class Crazyflie():
                             self._answer_patterns[pattern] = new_timer
                             new_timer.start()
                     else:
+                        # Answered (or the link was closed) since the timer was started
                         logger.debug('Resend requested, but no pattern found: %s',
                                      self._answer_patterns)
+                        return
                 link.send_packet(pk)
                 self.packet_sent.call(pk)
         finally:
